@@ -162,7 +162,8 @@ def classify_call(world, body, bb, term, env):
                              "ty": (c.get("args") or ["?"])[0]})
     if nm == "futures::futures_channel::mpsc::UnboundedSender::unbounded_send":
         ty = (c.get("args") or ["?"])[0]
-        kind = "Deliver" if ty.endswith("RxPacket") else ("Enqueue" if ty.endswith("ContextMessage") else "Send")
+        # a subscription stream carries the received packet, or the PUBLISH itself (the only kind ever sent on it)
+        kind = "Deliver" if (ty.endswith("RxPacket") or ty.endswith("codec::publish::PublishRx")) else ("Enqueue" if ty.endswith("ContextMessage") else "Send")
         return (kind, {"ty": ty, "sender": env_atoms(world, body, term["ops"][0], env),
                        "payload": env_atoms(world, body, term["ops"][1], env)})
     if "VecDeque" in nm or "VecDeque" in res:
